@@ -24,7 +24,12 @@ def _is_direct_open(mod, call):
         return "open" not in mod.functions and "open" not in mod.imports
     if isinstance(f, ast.Attribute) and f.attr == "open" and isinstance(f.value, ast.Name):
         imp = mod.imports.get(f.value.id)
-        return bool(imp and imp[0] == "module" and imp[1] in ("io", "codecs", "builtins"))
+        if imp:
+            return bool(imp[0] == "module" and imp[1] in ("io", "codecs", "builtins"))
+        # `<object>.open(...)`: the open method of a path-like object (pathlib.Path.open) returns a new handle
+        return f.value.id not in ("self", "cls", "webbrowser", "os") and f.value.id not in mod.functions
+    if isinstance(f, ast.Attribute) and f.attr == "open" and isinstance(f.value, (ast.Call, ast.Attribute, ast.Subscript)):
+        return not ast.unparse(f.value).startswith(("os.", "webbrowser."))      # `Path(x).open()`, `ref.absolute().open(mode)`
     return False
 
 
